@@ -20,6 +20,7 @@ pub fn run_go(prog: &Arc<goi::ProgData>, strategy: Strategy, seed: u64, forced: 
             steps: 0,
             sim_time_ns: 0,
             goroutines: 0,
+            live_at_stop: 0,
         };
     }
     let co = Co::new();
